@@ -11,6 +11,7 @@ from .execs import ExecMixin, Outcome
 from .calls import CallMixin, loop_ordinals
 from .builtins import BuiltinMixin
 from . import externals as _externals
+from .numeric import NumericMixin, construct_vec, is_vec, VEC_QUAL
 
 
 def _in_init(self, cls):
@@ -39,7 +40,7 @@ class Result:
         return dict(self.__dict__)
 
 
-class Engine(EvalMixin, ExecMixin, CallMixin, BuiltinMixin):
+class Engine(NumericMixin, EvalMixin, ExecMixin, CallMixin, BuiltinMixin):
 
     def __init__(self, index=None, timeout_ms=20000, feas_ms=300):
         self.index = index or Index()
@@ -129,6 +130,7 @@ class Engine(EvalMixin, ExecMixin, CallMixin, BuiltinMixin):
             if n not in spec.params:
                 raise SpecError('parameter %s of %s has no declared type' % (n, fi.qual))
             st.env[n] = fresh_value(st, spec.params[n], n)
+        st.env['np_errstate'] = SV(STR, z3.String('np_errstate0'))      # numpy's process-global error configuration (ghost)
         return st
 
     def verify(self, qual):
@@ -225,9 +227,10 @@ class Engine(EvalMixin, ExecMixin, CallMixin, BuiltinMixin):
         ps.spec = True
         # parameters keep their entry binding in postconditions (Python rebinding of a parameter is local)
         for k, v in e.old[0].items():
-            ps.env[k] = v
+            if k != 'np_errstate':
+                ps.env[k] = v
         for k, v in e.env.items():
-            if k not in ps.env:
+            if k not in ps.env or k == 'np_errstate':
                 ps.env[k] = v
         if spec.returns is not None:
             val = self.coerce_to(ps, val, spec.returns)
@@ -415,8 +418,28 @@ class Engine(EvalMixin, ExecMixin, CallMixin, BuiltinMixin):
             return 'unsat', None
         if r == z3.sat:
             m = s.model()
+            if not self.model_is_genuine(m, ob):
+                return 'unknown', None
             return 'sat', self.concretize(m, ob)
         return 'unknown', None
+
+    def model_is_genuine(self, m, ob):
+        """guard against spurious `sat` (incomplete theories combinations, lambdas): every ground path
+        condition must evaluate to true and the goal to false in the model"""
+        try:
+            for p in ob.pc:
+                if z3.is_quantifier(p):
+                    continue
+                v = m.eval(p, model_completion=True)
+                if z3.is_false(v):
+                    return False
+            if not z3.is_quantifier(ob.goal):
+                g = m.eval(ob.goal, model_completion=True)
+                if z3.is_true(g):
+                    return False
+        except Exception:
+            return True
+        return True
 
     # ------------------------------------------------------------------ finite-scope refutation
     def refute(self, fi, spec, res):
